@@ -1,7 +1,7 @@
 """Shared balance rules: R-BAL, R-UNW, R-CBZERO, R-DESTROY, R-FUNNEL, fail-closed notes."""
 from . import cfg
 from .effects import VK, ZERO, TooManyPaths, dcount, imbalance, vget
-from .facts import OWNING_HANDLES, operand_const, operand_local
+from .facts import OWNING_HANDLES, operand_const, operand_local, operand_place
 
 DROP_TRAIT = "core::ops::drop::Drop"
 
@@ -269,6 +269,134 @@ def rule_writeback(ctx, rep, rule="R-WRITEBACK"):
             n += 1
             if bad is not None:
                 rep.bad(rule, key, path_report(F, b, bad, "the handle was read out of `&mut self`, a callee re-pointed the copy (it released the old block and now owns a new one), and this %s exit leaves without writing the copy back: the caller's handle still points at the released block (use-after-free) and the new block leaks" % ("unwinding" if bad.exit == "unw" else "normal")), F.loc(b), tag)
+            else:
+                rep.ok(rule, key, cfg=tag)
+    return n
+
+
+def _is_atomic_ty(F, i):
+    t = F.ty(i)
+    return t["k"] == "adt" and t["path"].startswith("core::sync::atomic::Atomic")
+
+
+def _is_block_start(F, N, b, op, src_ty):
+    """The pointer operand is the start of a block (typed INNER pointer, or a value pointer minus offset_of_data) and the count is the
+    first field of the repr(C) header: re-typing it as a pointer to the atomic addresses the real count word for every payload type."""
+    from . import symx
+
+    inner = F.adts.get(F.inner_path or "")
+    if not (inner and inner["repr_c"] and F.count_field and F.count_field[0] == 0):
+        return False
+    if src_ty is not None and src_ty["k"] in ("ptr", "ref") and F.is_adt(src_ty["t"], F.inner_path):
+        return True
+    try:
+        n = N.norm(symx.expr(F, N.B(b["key"]), op), {})
+    except Exception:
+        return False
+    return n[0] == "sub_off"
+
+
+def rule_count_addr(ctx, rep, rule="R-COUNT-ADDR"):
+    """The count word is only ever addressed as the typed `count` field of the block header. Re-typing some pointer as a pointer to
+    an atomic (`p.cast::<AtomicUsize>().sub(1)`, "the word in front of the data") reads the count only for payload alignments up
+    to the word size; for over-aligned payloads it is padding, so counts, uniqueness verdicts and releases act on a wrong word."""
+    from . import atomics, model
+
+    from . import ptrclass
+
+    for tag, F, E in ctx.each():
+        bad = []
+        N = ptrclass.Norm(F)
+        for b in F.body_list:
+            for bi, bl in enumerate(b["blocks"]):
+                for st in bl["stmts"]:
+                    if st["k"] == "assign" and st["rv"]["k"] == "cast":
+                        tt = F.ty(st["rv"]["ty"])
+                        if tt["k"] in ("ptr", "ref") and _is_atomic_ty(F, tt["t"]):
+                            src = operand_place(st["rv"]["op"])
+                            st_ty = F.ty(src["ty"]) if src is not None and "ty" in src else None
+                            if st_ty is not None and st_ty["k"] in ("ptr", "ref") and _is_atomic_ty(F, st_ty["t"]):
+                                continue  # *const Atomic <-> *mut Atomic
+                            if _is_block_start(F, N, b, st["rv"]["op"], st_ty):
+                                continue
+                            bad.append((b, st["span"], "cast to %s" % F.ts(st["rv"]["ty"])))
+                t = bl["term"]
+                if t["k"] == "call":
+                    r = t.get("resolved")
+                    path = r["def"] if isinstance(r, dict) else (t.get("callee") or "")
+                    args = r["args"] if isinstance(r, dict) else (t.get("callee_args") or [])
+                    if path.endswith(">::cast") or "transmute" in path or path.endswith("::cast_mut") and False:
+                        tys = [a["t"] for a in args if "t" in a]
+                        if tys and _is_atomic_ty(F, tys[-1]) and not (len(tys) > 1 and _is_atomic_ty(F, tys[0])):
+                            if t["args"] and _is_block_start(F, N, b, t["args"][0], None):
+                                continue
+                            bad.append((b, t["span"], "%s to %s" % (path, F.ts(tys[-1]))))
+        nsites = 0
+        for b, B, bi, t, cls, ordr in atomics.sites(F):
+            if cls in (model.ATOMIC_RMW_ADD, model.ATOMIC_RMW_SUB, model.ATOMIC_LOAD, model.ATOMIC_OTHER):
+                nsites += 1
+        if bad:
+            for b, span, what in bad:
+                rep.bad(rule, "%s/%s" % (b["key"], what), "a pointer is re-typed as a pointer to an atomic (%s): the count word must be addressed as the `count` field of the block header, whose offset from the value depends on the payload's alignment; a fixed \"word in front of the data\" is padding for over-aligned payloads" % what, F.loc(b, span), tag)
+        else:
+            rep.ok(rule, "no pointer re-typed as atomic", "%d atomic access sites, none through a re-typed pointer" % nsites, cfg=tag)
+
+
+def _last_owner_edges(F, b):
+    """Edges (switch block, target) on which the direct decrement in `b` is known to have observed 1; None if there is no such test."""
+    out = set()
+    any_gate = False
+    for bi, t, found, B in dec_gate(F, b):
+        if found is None:
+            continue
+        sj, tt, c, k = found
+        if k != 1 or c["op"] not in ("Eq", "Ne"):
+            continue
+        any_gate = True
+        for tgt, tv in B.switch_truth(tt).items():
+            cond_true = tv != c["neg"]
+            if (cond_true if c["op"] == "Eq" else not cond_true):
+                out.add((sj, tgt))
+    return out if any_gate else None
+
+
+def rule_use_after_release(ctx, rep, rule="R-USE-AFTER-RELEASE"):
+    """Once a body has given its count back (a direct decrement) and was not the last owner, it must not touch the block again:
+    the count no longer covers it, so another owner may already be judged unique (and be writing) or have freed the block."""
+    n = 0
+    for tag, F, E in ctx.each():
+        A = analysis(tag, F, E)
+        for b in F.body_list:
+            key = b["key"]
+            if key in A.errors:
+                continue
+            site = False
+            bad = None
+            last_edges = _last_owner_edges(F, b)
+            for p in A.paths.get(key, []):
+                ev = p.events
+                i_dec = next((i for i, e in enumerate(ev) if e["kind"] == "DEC"), None)
+                if i_dec is None:
+                    continue
+                site = True
+                blocks = list(p.blocks)
+                if last_edges is not None:
+                    last = any((blocks[i], blocks[i + 1]) in last_edges for i in range(len(blocks) - 1))
+                else:
+                    last = any(vget(e["vec"], "free_s1") or vget(e["vec"], "free_raw") for e in ev[i_dec + 1 :])
+                if last:
+                    continue  # last owner: R-ORD-2/R-ORD-6/R-DESTROY govern this branch
+                for e in ev[i_dec + 1 :]:
+                    if e["kind"] in ("DATAREF", "UCLONE", "USER", "LOAD", "INC", "DEC", "PCALL") or (e["kind"] == "CALL" and e["detail"].get("outcome") is None):
+                        if bad is None:
+                            bad = (p, e)
+                        break
+            if not site:
+                continue
+            n += 1
+            if bad:
+                p, e = bad
+                rep.bad(rule, key, path_report(F, b, p, "after giving its count back (and not being the last owner) the function still uses the block (%s at line %s): the count no longer covers this owner, so another handle can be found unique - and be granted `&mut`, or free the value - while it is still in use" % (e["kind"], e["span"]["line"])), F.loc(b, e["span"]), tag)
             else:
                 rep.ok(rule, key, cfg=tag)
     return n
